@@ -112,6 +112,10 @@ func genC17(t *rapid.T) C17Case {
 			o.BadType = rapid.SampledFrom([]int{1001, 1000, 3, 1300}).Draw(t, "badtypeval")
 		} else if o.K == "nowait" && rapid.IntRange(0, 7).Draw(t, "hard") == 0 {
 			o.Hard = rapid.SampledFrom([]int{int(syscall.ENOBUFS), int(syscall.EBADF), int(syscall.ENOTCONN)}).Draw(t, "harderrno")
+		} else if (o.K == "wait" || o.K == "setpidwait") && rapid.IntRange(0, 5).Draw(t, "lostreply") == 0 {
+			// the reply to a synchronous request never comes: the read fails (a full socket buffer, a dead socket). That
+			// request was never one of the NoWait requests and nobody waits for it later
+			o.Hard = rapid.SampledFrom([]int{int(syscall.ENOBUFS), int(syscall.EBADF), int(syscall.ENOTCONN), int(syscall.EIO)}).Draw(t, "lostreplyerrno")
 		}
 		if o.K == "getrules" {
 			for j, m := 0, rapid.IntRange(1, 4).Draw(t, "nrules"); j < m; j++ {
@@ -321,12 +325,22 @@ func propC17(c C17Case) error {
 				}
 				k.Push(simk.Ack(s.Seq, o.Errno, s.Type))
 			}
+			if o.Hard != 0 {
+				k.OnSend = func(k *simk.K, s simk.Sent) { k.Fail(syscall.Errno(o.Hard)) }
+			}
 			var err error
 			if o.K == "setpidwait" {
 				err = cl.SetPID(libaudit.WaitForReply)
 				usedPID = true
 			} else {
 				err = c17Set(cl, Op17{Setter: o.Setter + 5, U32: o.U32}, libaudit.WaitForReply)
+			}
+			if o.Hard != 0 {
+				if err == nil {
+					return fmt.Errorf("%s: the read of the reply failed with errno %d and the call returned nil", what, o.Hard)
+				}
+				hC17.Class("synchronous-request-whose-reply-cannot-be-read")
+				continue
 			}
 			if (o.Errno == 0) != (err == nil) {
 				return fmt.Errorf("%s: ack errno %d but result %v", what, o.Errno, err)
